@@ -32,7 +32,15 @@ def pkiOf (sigrange chain subj : String) : Pki :=
     subject := fun _ oid => subjOf subj oid }
 
 def specPf (label before out : String) : Option String :=
-  let ws := words out
+  let ws := (words out).filter (fun w => !w.startsWith "rs:")
+  let rsViol : Option String := ((words out).find? (·.startsWith "rs:")).bind fun t =>
+    match t.splitOn ":" with
+    | [_, _, sl3, v3] =>
+      if s!"signed={sl3}" != (ws.getD 1 "?") then some s!"signed-range-changes-when-the-file-is-serialized-({ws.getD 1 "?"}-then-{sl3})"
+      else if s!"V{v3}" != (ws.getD 2 "?") then some s!"verdict-changes-when-the-file-is-serialized-({ws.getD 2 "?"}-then-V{v3})"
+      else none
+    | _ => none
+  if rsViol.isSome then rsViol else
   let p := ws.headD "?"
   let v := ws.getD 2 "?"
   let w := ws.getD 3 "?"
@@ -74,6 +82,7 @@ def handle (inp out : String) : String :=
     match specPf label before out with
     | some why => s!"specfail pf:{label} {why}"
     | none =>
+    let out := " ".intercalate ((words out).filter (fun w => !w.startsWith "rs:"))
     match ofHex h with
     | some raw =>
       let cfg := cfgOf good
